@@ -222,6 +222,9 @@ pub(in crate::client::conn::transport) mod future {
     }
 }
 
+#[cfg(all(test, feature = "verif-hooks"))]
+mod verif_replays;
+
 #[cfg(test)]
 mod tests {
 
